@@ -51,7 +51,7 @@ func zeroBits(p *edwards25519.Point) string {
 	// coordinate independently, whether its limbs are all zero: a finer
 	// partition than any such guard needs, which can only split classes, never
 	// merge executions that a correct guard distinguishes.
-	raw := alpha.PointRaw(p)
+	raw := alpha.PointLimbs(p)
 	out := ""
 	for c, name := range []string{"x", "y", "z", "t"} {
 		zero := true
